@@ -53,7 +53,9 @@ Theorem emitted_is_block_prefix_faulty :
       /\ x_out st = map (member_of deflate crc32 lvl h) (firstn k (s_sub s)) ++ (if s_eof s then [bgzf_magicBlock] else [])
       /\ gunzip_multi inflate crc32 (out_bytes st) = Some (concat (firstn k (s_sub s)))
       /\ prefix_of (concat (firstn k (s_sub s))) (s_data s)
-      /\ (x_err st <> None -> s_eof s = false).
+      /\ (x_err st <> None -> s_eof s = false)
+      /\ Forall small (firstn k (s_sub s))
+      /\ (s_eof s = true -> s_closed s = true /\ x_err st = None).
 Proof. exact emitted_is_block_prefix_faulty_gen. Qed.
 Print Assumptions emitted_is_block_prefix_faulty.
 
